@@ -34,6 +34,40 @@ Qed.
 Lemma flush_pre_flush ps st ws p : flush ps (pre_flush ps st ws p) = pre_flush ps st ws p.
 Proof. unfold flush at 1. rewrite pre_flush_pend. reflexivity. Qed.
 
+(** the collectors of the core grammar ([opts_ok]) and the collector of an
+    environment body (stop condition [\end{name}]) *)
+Definition opts_ok2 (ps : pstate) (o : genopts) : Prop :=
+  g_nl o = NLNone /\ g_incl_pre o = true /\ (forall t, child_state o ps t = ps) /\
+  match g_stop o with
+  | SNone | SBraceClose _ | SEndEnv _ => True
+  | SMathClose k _ => is_mk k = true /\ f_in_math (ps_f ps) = true
+  | SLegacy _ _ _ => False
+  end.
+
+Lemma opts_ok_2 ps o : opts_ok ps o -> opts_ok2 ps o.
+Proof.
+  intros (A & B & C & D). repeat split; try assumption.
+  destruct (g_stop o); try exact I; try exact D; contradiction.
+Qed.
+
+Lemma stop_no_match2 ps o k a p e pre post : opts_ok2 ps o ->
+  (k = TkBraceOpen \/ k = TkMacro \/ k = TkComment \/ k = TkSpecials \/ k = TkBeginEnv
+   \/ (is_mk k = true /\ f_in_math (ps_f ps) = false)) ->
+  stop_matches (g_stop o) (mk k a p e pre post) = false.
+Proof.
+  intros (_ & _ & _ & ST) K.
+  destruct (g_stop o) as [|cc|k' cc|nm|? ? ?]; try reflexivity; try contradiction.
+  - cbn. destruct K as [->|[->|[->|[->|[->|[K _]]]]]]; try reflexivity. destruct k; try discriminate; reflexivity.
+  - destruct ST as [K' M]. cbn. destruct K as [->|[->|[->|[->|[->|[K M']]]]]].
+    + destruct k'; try discriminate; reflexivity.
+    + destruct k'; try discriminate; reflexivity.
+    + destruct k'; try discriminate; reflexivity.
+    + destruct k'; try discriminate; reflexivity.
+    + destruct k'; try discriminate; reflexivity.
+    + congruence.
+  - cbn. destruct K as [->|[->|[->|[->|[->|[K _]]]]]]; try reflexivity. destruct k; try discriminate; reflexivity.
+Qed.
+
 Section Rules.
   Variable s : str.
   Variable cx : context.
@@ -42,7 +76,7 @@ Section Rules.
 
   (** ** the collector, either mode *)
   Lemma trule_char n ps o st pos ws c r :
-    opts_ok ps o ->
+    opts_ok2 ps o ->
     impl_peek ps s pos = TokOk (mk TkChar [c] (pos + length ws) (S (pos + length ws)) ws []) ->
     R n (TCollect ps o (push_pending st (ws ++ [c]) pos) (S (pos + length ws))) = r ->
     R (S n) (TCollect ps o st pos) = r.
@@ -56,7 +90,7 @@ Section Rules.
   Qed.
 
   Lemma trule_stop n ps o st pos t :
-    opts_ok ps o -> impl_peek ps s pos = TokOk t -> stop_matches (g_stop o) t = true ->
+    opts_ok2 ps o -> impl_peek ps s pos = TokOk t -> stop_matches (g_stop o) t = true ->
     R (S n) (TCollect ps o st pos)
     = Ok (OColl (close_state ps st (tpre t) (tpos t - length (tpre t))) (Some t) false false) (tpos t).
   Proof.
@@ -72,7 +106,7 @@ Section Rules.
   Proof. intros T H. rewrite run_collect. unfold collect_step. rewrite (next_tok_eos _ _ _ _ _ T). exact H. Qed.
 
   Lemma trule_eos n ps o st pos :
-    opts_ok ps o -> impl_peek ps s pos = TokEOS [] ->
+    opts_ok2 ps o -> impl_peek ps s pos = TokEOS [] ->
     R (S n) (TCollect ps o st pos) = Ok (OColl (flush ps st) None false true) pos.
   Proof.
     intros (NL & _) T. rewrite run_collect. unfold collect_step. rewrite (next_tok_eos _ _ _ _ _ T).
@@ -80,21 +114,21 @@ Section Rules.
   Qed.
 
   Lemma trule_group n ps o st pos ws nd p' r :
-    opts_ok ps o ->
+    opts_ok2 ps o ->
     impl_peek ps s pos = TokOk (mk TkBraceOpen [123%N] (pos + length ws) (S (pos + length ws)) ws []) ->
     R n (TGroup ps (GDStr [123%N]) false false (pos + length ws)) = Ok (ONode nd) p' ->
     R n (TCollect ps o (push_node (pre_flush ps st ws pos) nd) p') = r ->
     R (S n) (TCollect ps o st pos) = r.
   Proof.
     intros OK T G H. pose proof OK as (NL & _ & CH & _). rewrite run_collect. unfold collect_step.
-    rewrite (next_tok_ok _ _ _ _ _ T), (stop_no_match ps o _ _ _ _ _ _ OK) by (left; reflexivity).
+    rewrite (next_tok_ok _ _ _ _ _ T), (stop_no_match2 ps o _ _ _ _ _ _ OK) by (left; reflexivity).
     cbn [mk tk]. rewrite (c_pre_result_nl ps o st _ _ pos _ ws [] NL). cbn [fst snd].
     unfold c_dispatch. cbn [mk tk targ tpos]. rewrite CH, G. cbn [parse_content].
     unfold c_push_check. rewrite NL. cbn [nl_stop_met]. exact H.
   Qed.
 
   Lemma trule_math n ps o st pos ws k nd p' r :
-    opts_ok ps o -> Good ps -> f_in_math (ps_f ps) = false ->
+    opts_ok2 ps o -> Good ps -> f_in_math (ps_f ps) = false ->
     impl_peek ps s pos = TokOk (mk (m_tok k) (m_open k) (pos + length ws)
                                    (pos + length ws + length (m_open k)) ws []) ->
     R n (TMath ps (m_open k) (pos + length ws)) = Ok (ONode (Some nd)) p' ->
@@ -102,8 +136,8 @@ Section Rules.
     R (S n) (TCollect ps o st pos) = r.
   Proof.
     intros OK GD M T G H. pose proof OK as (NL & _ & CH & _). rewrite run_collect. unfold collect_step.
-    rewrite (next_tok_ok _ _ _ _ _ T), (stop_no_match ps o _ _ _ _ _ _ OK)
-      by (right; right; right; right; split; [destruct k; reflexivity | exact M]).
+    rewrite (next_tok_ok _ _ _ _ _ T), (stop_no_match2 ps o _ _ _ _ _ _ OK)
+      by (right; right; right; right; right; split; [destruct k; reflexivity | exact M]).
     assert (TK : tk (mk (m_tok k) (m_open k) (pos + length ws) (pos + length ws + length (m_open k)) ws [])
                  = m_tok k) by reflexivity.
     assert (BO : by_open_has ps (m_open k) = true).
@@ -115,42 +149,42 @@ Section Rules.
   Qed.
 
   Lemma trule_macro n ps o st pos ws name pe post sp nd p' r :
-    opts_ok ps o -> get_macro_spec cx name = Some sp ->
+    opts_ok2 ps o -> get_macro_spec cx name = Some sp ->
     impl_peek ps s pos = TokOk (mk TkMacro name (pos + length ws) pe ws post) ->
     R n (TCall ps (mk TkMacro name (pos + length ws) pe [] post) sp pe) = Ok (ONode (Some nd)) p' ->
     R n (TCollect ps o (push_node (pre_flush ps st ws pos) (Some nd)) p') = r ->
     R (S n) (TCollect ps o st pos) = r.
   Proof.
     intros OK SP T G H. pose proof OK as (NL & _ & CH & _). rewrite run_collect. unfold collect_step.
-    rewrite (next_tok_ok _ _ _ _ _ T), (stop_no_match ps o _ _ _ _ _ _ OK) by (right; left; reflexivity).
+    rewrite (next_tok_ok _ _ _ _ _ T), (stop_no_match2 ps o _ _ _ _ _ _ OK) by (right; left; reflexivity).
     cbn [mk tk]. rewrite (c_pre_result_nl ps o st _ _ pos _ ws post NL). cbn [fst snd].
     unfold c_dispatch. cbn [mk tk targ tpos tend tpost]. rewrite SP, CH. unfold c_tok0. cbn [mk tk targ tpos tend tpost].
     rewrite G. cbn [parse_content]. unfold c_push_check. rewrite NL. cbn [nl_stop_met]. exact H.
   Qed.
 
   Lemma trule_comment n ps o st pos ws text pe post r :
-    opts_ok ps o ->
+    opts_ok2 ps o ->
     impl_peek ps s pos = TokOk (mk TkComment text (pos + length ws) pe ws post) ->
     R n (TCollect ps o (push_node (pre_flush ps st ws pos)
                                   (Some (NComment (pos + length ws) pe (ps_mode ps) text post))) pe) = r ->
     R (S n) (TCollect ps o st pos) = r.
   Proof.
     intros OK T H. pose proof OK as (NL & _ & CH & _). rewrite run_collect. unfold collect_step.
-    rewrite (next_tok_ok _ _ _ _ _ T), (stop_no_match ps o _ _ _ _ _ _ OK) by (right; right; left; reflexivity).
+    rewrite (next_tok_ok _ _ _ _ _ T), (stop_no_match2 ps o _ _ _ _ _ _ OK) by (right; right; left; reflexivity).
     cbn [mk tk]. rewrite (c_pre_result_nl ps o st _ _ pos _ ws post NL). cbn [fst snd].
     unfold c_dispatch. cbn [mk tk targ tpos tend tpost]. unfold c_push_check. rewrite NL. cbn [nl_stop_met].
     exact H.
   Qed.
 
   Lemma trule_specials n ps o st pos ws chars pe sp nd p' r :
-    opts_ok ps o -> get_specials_spec cx chars = Some sp ->
+    opts_ok2 ps o -> get_specials_spec cx chars = Some sp ->
     impl_peek ps s pos = TokOk (mk TkSpecials chars (pos + length ws) pe ws []) ->
     R n (TCall ps (mk TkSpecials chars (pos + length ws) pe [] []) sp pe) = Ok (ONode (Some nd)) p' ->
     R n (TCollect ps o (push_node (pre_flush ps st ws pos) (Some nd)) p') = r ->
     R (S n) (TCollect ps o st pos) = r.
   Proof.
     intros OK SP T G H. pose proof OK as (NL & _ & CH & _). rewrite run_collect. unfold collect_step.
-    rewrite (next_tok_ok _ _ _ _ _ T), (stop_no_match ps o _ _ _ _ _ _ OK) by (right; right; right; left; reflexivity).
+    rewrite (next_tok_ok _ _ _ _ _ T), (stop_no_match2 ps o _ _ _ _ _ _ OK) by (right; right; right; left; reflexivity).
     cbn [mk tk]. rewrite (c_pre_result_nl ps o st _ _ pos _ ws [] NL). cbn [fst snd].
     unfold c_dispatch. cbn [mk tk targ tpos tend tpost]. rewrite SP, CH. unfold c_tok0. cbn [mk tk targ tpos tend tpost].
     rewrite G. cbn [parse_content]. unfold c_push_check. rewrite NL. cbn [nl_stop_met]. exact H.
@@ -250,27 +284,27 @@ Section ErrRules.
   Qed.
 
   Lemma erule_group n ps o st pos ws e p :
-    opts_ok ps o ->
+    opts_ok2 ps o ->
     impl_peek ps s pos = TokOk (mk TkBraceOpen [123%N] (pos + length ws) (S (pos + length ws)) ws []) ->
     R n (TGroup ps (GDStr [123%N]) false false (pos + length ws)) = PErr e p ->
     R (S n) (TCollect ps o st pos) = PErr e p.
   Proof.
     intros OK T G. pose proof OK as (NL & _ & CH & _). rewrite run_collect. unfold collect_step.
-    rewrite next_tok_strict, T, (stop_no_match ps o _ _ _ _ _ _ OK) by (left; reflexivity).
+    rewrite next_tok_strict, T, (stop_no_match2 ps o _ _ _ _ _ _ OK) by (left; reflexivity).
     cbn [mk tk]. rewrite (c_pre_result_nl ps o st _ _ pos _ ws [] NL). cbn [fst snd].
     unfold c_dispatch. cbn [mk tk targ tpos]. rewrite CH, G. reflexivity.
   Qed.
 
   Lemma erule_math n ps o st pos ws k e p :
-    opts_ok ps o -> Good ps -> f_in_math (ps_f ps) = false ->
+    opts_ok2 ps o -> Good ps -> f_in_math (ps_f ps) = false ->
     impl_peek ps s pos = TokOk (mk (m_tok k) (m_open k) (pos + length ws)
                                    (pos + length ws + length (m_open k)) ws []) ->
     R n (TMath ps (m_open k) (pos + length ws)) = PErr e p ->
     R (S n) (TCollect ps o st pos) = PErr e p.
   Proof.
     intros OK GD M T G. pose proof OK as (NL & _ & CH & _). rewrite run_collect. unfold collect_step.
-    rewrite next_tok_strict, T, (stop_no_match ps o _ _ _ _ _ _ OK)
-      by (right; right; right; right; split; [destruct k; reflexivity | exact M]).
+    rewrite next_tok_strict, T, (stop_no_match2 ps o _ _ _ _ _ _ OK)
+      by (right; right; right; right; right; split; [destruct k; reflexivity | exact M]).
     assert (TK : tk (mk (m_tok k) (m_open k) (pos + length ws) (pos + length ws + length (m_open k)) ws [])
                  = m_tok k) by reflexivity.
     assert (BO : by_open_has ps (m_open k) = true).
@@ -282,13 +316,13 @@ Section ErrRules.
   Qed.
 
   Lemma erule_macro n ps o st pos ws name pe post sp e p :
-    opts_ok ps o -> get_macro_spec cx name = Some sp ->
+    opts_ok2 ps o -> get_macro_spec cx name = Some sp ->
     impl_peek ps s pos = TokOk (mk TkMacro name (pos + length ws) pe ws post) ->
     R n (TCall ps (mk TkMacro name (pos + length ws) pe [] post) sp pe) = PErr e p ->
     R (S n) (TCollect ps o st pos) = PErr e p.
   Proof.
     intros OK SP T G. pose proof OK as (NL & _ & CH & _). rewrite run_collect. unfold collect_step.
-    rewrite next_tok_strict, T, (stop_no_match ps o _ _ _ _ _ _ OK) by (right; left; reflexivity).
+    rewrite next_tok_strict, T, (stop_no_match2 ps o _ _ _ _ _ _ OK) by (right; left; reflexivity).
     cbn [mk tk]. rewrite (c_pre_result_nl ps o st _ _ pos _ ws post NL). cbn [fst snd].
     unfold c_dispatch. cbn [mk tk targ tpos tend tpost]. rewrite SP, CH. unfold c_tok0. cbn [mk tk targ tpos tend tpost].
     rewrite G. reflexivity.
@@ -330,4 +364,48 @@ Section ErrRules.
     = PErr (mkerr (Some (match coll_pos_start st with Some q => q | None => pos end)) 6
                   (Some (gen_nodelist pos (cs_acc st))) true None None) p.
   Proof. intros RQ SN H. cbn [run]. rewrite H, RQ, SN. reflexivity. Qed.
+
+  (** ** [\begin{x}]: the call parser of an environment without arguments,
+      the environment body parser *)
+  Definition env_opts (name : str) : genopts :=
+    {| g_stop := SEndEnv name; g_nl := NLNone; g_require := true;
+       g_child := CPSelf; g_incl_pre := true; g_handle_stop := true |}.
+  Definition env_body_state (ps : pstate) (sp : cspec) : pstate :=
+    if sp_body_math sp then ps_enter_math ps None else ps.
+
+  Lemma erule_tcall_env n ps name p0 pe sp e p :
+    sp_args sp = APStd [] ->
+    R n (TGeneral (env_body_state ps sp) (env_opts name) pe) = PErr e p ->
+    R (S (S n)) (TCall ps (mk TkBeginEnv name p0 pe [] []) sp pe) = PErr e p.
+  Proof.
+    intros A H. cbn [run]. rewrite A. cbn [parse_content_args parse_content mk tk targ].
+    fold (env_opts name). fold (env_body_state ps sp).
+    destruct n as [|n]; [discriminate|]. rewrite H. reflexivity.
+  Qed.
+
+  Lemma erule_begin n ps o st pos ws name pe sp e p :
+    opts_ok2 ps o -> get_env_spec cx name = Some sp ->
+    impl_peek ps s pos = TokOk (mk TkBeginEnv name (pos + length ws) pe ws []) ->
+    R n (TCall ps (mk TkBeginEnv name (pos + length ws) pe [] []) sp pe) = PErr e p ->
+    R (S n) (TCollect ps o st pos) = PErr e p.
+  Proof.
+    intros OK SP T G. pose proof OK as (NL & _ & CH & _). rewrite run_collect. unfold collect_step.
+    rewrite next_tok_strict, T, (stop_no_match2 ps o _ _ _ _ _ _ OK) by (right; right; right; right; left; reflexivity).
+    cbn [mk tk]. rewrite (c_pre_result_nl ps o st _ _ pos _ ws [] NL). cbn [fst snd].
+    unfold c_dispatch. cbn [mk tk targ tpos tend tpost]. rewrite SP, CH. unfold c_tok0. cbn [mk tk targ tpos tend tpost].
+    rewrite G. reflexivity.
+  Qed.
+
+  (** an environment the context does not know and has no fallback for: error 5 at the token *)
+  Lemma erule_unknown_env n ps o st pos ws name pe :
+    opts_ok2 ps o -> get_env_spec cx name = None ->
+    impl_peek ps s pos = TokOk (mk TkBeginEnv name (pos + length ws) pe ws []) ->
+    R (S n) (TCollect ps o st pos)
+    = PErr (mkerr (Some (pos + length ws)) 5 (Some (NList None None (cs_acc (pre_flush ps st ws pos)))) false None None) pe.
+  Proof.
+    intros OK SP T. pose proof OK as (NL & _ & CH & _). rewrite run_collect. unfold collect_step.
+    rewrite next_tok_strict, T, (stop_no_match2 ps o _ _ _ _ _ _ OK) by (right; right; right; right; left; reflexivity).
+    cbn [mk tk]. rewrite (c_pre_result_nl ps o st _ _ pos _ ws [] NL). cbn [fst snd].
+    unfold c_dispatch. cbn [mk tk targ tpos tend tpost]. rewrite SP, flush_pre_flush. reflexivity.
+  Qed.
 End ErrRules.
